@@ -262,6 +262,30 @@ func TestC15_ClientAssertions(t *testing.T) {
 			return tr.OK() || tr.Access != "", tr.Err
 		}
 		endpoints := []string{"token", "token", "token", "par", "revoke", "device_authorization"}
+		if keySource == "jwks_uri" && rapid.Bool().Draw(rt, "neighbourAuthenticatesFirst") {
+			// the other client authenticates as itself (its key set is now in the fetcher's cache), then its key is
+			// used for an assertion in jwt-client's name, then jwt-client authenticates with its own key
+			mk := func(iss string, key interface{}, jti string) string {
+				now := h.Now()
+				return h.MustSignJWT(key, "RS256", "kid-1", map[string]interface{}{"iss": iss, "sub": iss, "aud": h.TokenURL, "jti": jti, "exp": now.Add(300e9).Unix(), "iat": now.Unix()})
+			}
+			tok := func(a string) *h.TokenResult {
+				return w.Token(url.Values{"grant_type": {"client_credentials"}, "scope": {"a"}, "client_assertion_type": {assertionType}, "client_assertion": {a}}, h.Auth{}, h.TokenOpts{})
+			}
+			r1 := tok(mk("other-jwt-client", h.RSAKey(2), "pre-1"))
+			r2 := tok(mk("jwt-client", h.RSAKey(2), "pre-2"))
+			r3 := tok(mk("jwt-client", h.RSAKey(1), "pre-3"))
+			h.Label("neighbour-authenticates-first")
+			if !r1.OK() {
+				rt.Fatalf("VERIF-INFRA: the other client's own assertion was refused: %v %s", r1.Err, r1.Err.Hint)
+			}
+			if r2.OK() || r2.Access != "" {
+				h.Violate(rt, "C15/client-assertion/accepted-with-defect", "an assertion in jwt-client's name signed with the other client's key was accepted after that client had authenticated (key sets published at %v)", w.Mem.Clients["jwt-client"].(*fosite.DefaultOpenIDConnectClient).JSONWebKeysURI)
+			}
+			if !r3.OK() {
+				h.Violate(rt, "C15/client-assertion/valid-refused", "jwt-client's own valid assertion was refused after the other client had authenticated: %v %s", r3.Err, r3.Err.Hint)
+			}
+		}
 		// a history of presentations
 		var log []string
 		type used struct {
